@@ -49,6 +49,7 @@ THEOREMS = [
     "Typedpy.C13.default_none_kw_equiv",
     "Typedpy.C13.dedup_examples",
     "Typedpy.C13.coll_of_union_tree",
+    "Typedpy.C13.tuple_triple_equiv",
     "Typedpy.C13.equiv_example",
 ]
 RULE = ("class bodies of 1-3 fields; each field an abstract meaning tree (scalar / constrained field literal / bare or "
